@@ -224,7 +224,7 @@ def write_data(wd, guard, edges, derive_feature, feats, probe_sets=()):
 
 
 # ------------------------------------------------------------------------------------------------ probes
-PROBE_PRELUDE = ('pub static K: i32 = 5;\npub trait Tr { type Assoc; }\n'
+PROBE_PRELUDE = ('pub static K: i32 = 5;\npub const LEN: usize = 2;\npub trait Tr { type Assoc; }\n'
                  '#[macro_export] macro_rules! impls { ($t:ty : $($tr:tt)+) => {{ trait Fb { const V: bool = false; } impl<T: ?Sized> Fb for T {} '
                  'struct W<T: ?Sized>(::core::marker::PhantomData<T>); #[allow(dead_code)] impl<T: ?Sized + $($tr)+> W<T> { const V: bool = true; } <W<$t>>::V }} }\n'
                  'pub fn report(k: &str, rows: &[::std::string::String]) { println!("OBS {{\\"k\\": {:?}, \\"rows\\": [{}]}}", k, '
